@@ -1,5 +1,226 @@
-"""C04 -- stub while developing (replaced below)."""
+"""C04 -- refinement never worsens the fit and respects bounds, symmetry and the box.
+
+(a) proofs: Properties/C04.v over Model/Refine.v + Gen_refine (regenerated from the current refine_droplet /
+    data_bounds; golden fallback)
+(b) correspondence inside Coq: every recorded refinement (arguments and answer of least_squares as seen from
+    droplets.image_analysis, dilation count, returned droplet or error) against the model fed with the recorded
+    answer; oracle spec of least_squares and the normalisation-invariance premise checked per call
+(c) property oracle from the property text over the implementation (main stream, fixed-point stream, probe streams
+    of the known-finding classes F20, F22, F23, F24, F25)
+"""
+from __future__ import annotations
+
+import copy
+import json
+import math
+import random
+
+import numpy as np
+
+import refine_common as rc
 import vlib
-def check(ctx):
-    ok = vlib.prove(ctx, ["Model/Refine.vo"], gens=["Gen_refine", "Gen_refine_R"])
+
+TRUSTED = [
+    "Coq 8.16.1 kernel + vm_compute",
+    "harness/gen_refine.py (fail-closed translator of refine_droplet's vector plumbing and of the data_bounds properties)",
+    "hand model of py-pde 0.58.0 grid facts: coordinate_constraints, typical_discretization, transform, normalize_point "
+    "(Model/Refine.v, Model/Grid.v; constraints compared with the grid object on every run)",
+    "oracle scipy.optimize.least_squares: premise lsq_spec (answer within bounds, cost <= cost at start; zero-cost start returned) "
+    "checked on every recorded call; its preconditions (shapes, lb < ub, lb <= x0 <= ub) modelled as error values",
+    "premise dev_normalisation_invariant (rendering unchanged by the final normalisation): proved for Cartesian difference "
+    "vectors (C04_cart_normalisation_invariant), checked per sample by recomputing the deviation of the RETURNED droplet",
+    "correspondence harness harness/refine_common.py: proxies on droplets.image_analysis.optimize / .ndimage, exact float->Q",
+    "droplet._get_phase_field and scipy.ndimage.binary_dilation are used to recompute region and deviation (rendering is C03's subject)",
+]
+ASSUME = [
+    "cost comparison: the two deviations are evaluated in binary64; relative slack 1e-9",
+    "a start ON a bound is moved inside by 1e-10 by scipy before the first evaluation; the cost premise is checked with slack 1e-6*(cost0+1) there and exactly otherwise",
+    "positions after (p - lo) % L + lo are compared with the exact-rational model to 1e-12 relative; all other entries exactly",
+    "intensity entries of start vector / bounds (vmax - vmin, vmin - vrng, 3*vrng) are float results compared to 1e-12 relative",
+]
+RULE = ("one evaluation = one refine_droplet call recorded end to end; main stream cycles grid families (Cartesian 1-3 d with random "
+        "periodicity and mildly anisotropic spacing, polar, spherical, cylindrical incl. periodic_z; <= 16 cells per axis, 3-d <= 8), "
+        "candidate classes (Spherical = promotion, Diffuse with / without width, Perturbed 2D / 3D / 3DAxisSym with 0, 2, 3 modes), "
+        "image kinds (clean, noisy, affine, affine+noise) and the 2x2x2 options vmin/vmax given|None x adjust_values; candidates "
+        "off by up to a cell, +-20 % radius/width, written across periodic boundaries, off the symmetry locus; every sixth case "
+        "is a fixed-point case (image rendered from the candidate, levels supplied); probe streams for the known-finding classes; "
+        "non-trivial = the optimiser moved the start or an error value was produced; distinct by the full case")
+
+
+def probe_cases(rng: random.Random) -> list[tuple[str, dict]]:
+    """small deterministic streams for the input classes recorded as known findings (violations if no entry matches)"""
+    out = []
+    g2 = {"family": "cartesian", "bounds": [[0.0, 16.0], [0.0, 16.0]], "shape": [16, 16], "periodic": [False, False]}
+    truth = {"cls": "DiffuseDroplet", "position": [8.0, 8.0], "radius": 4.0, "width": 1.0}
+    cand = {"cls": "DiffuseDroplet", "position": [8.3, 7.8], "radius": 4.3, "width": 1.0}
+    clean = {"kind": "clean", "truth": [truth], "a": 1.0, "b": 0.0, "sigma": 0.0, "nseed": 1}
+    # F20: fitted intensities with vmin_eff >= vmax_eff
+    out.append(("F20", {"grid": g2, "image": {"kind": "const", "value": 0.7}, "candidate": cand, "vmin": None, "vmax": None, "adjust": True}))
+    out.append(("F20", {"grid": g2, "image": dict(clean, a=-1.0, b=1.0), "candidate": cand, "vmin": 1.0, "vmax": 0.0, "adjust": True}))
+    out.append(("F20", {"grid": g2, "image": clean, "candidate": cand, "vmin": None, "vmax": -0.5, "adjust": True}))
+    out.append(("F20", {"grid": g2, "image": clean, "candidate": cand, "vmin": 0.5, "vmax": 0.5, "adjust": True}))
+    # F22: periodic cylinder, candidate / fitted centre outside the box
+    gc = {"family": "cylindrical", "radius": 8.0, "bounds_z": [0.0, 16.0], "shape": [8, 16], "periodic_z": True}
+    tz = {"cls": "DiffuseDroplet", "position": [0.0, 0.0, 0.6], "radius": 3.0, "width": 1.0}
+    for z, vmin in ((16.9, 0.0), (-15.2, None), (17.3, None)):
+        out.append(("F22", {"grid": gc, "image": {"kind": "clean", "truth": [tz], "a": 1.0, "b": 0.0, "sigma": 0.0, "nseed": 1},
+                            "candidate": {"cls": "DiffuseDroplet", "position": [0.0, 0.0, z], "radius": 3.2, "width": 1.0},
+                            "vmin": vmin, "vmax": 1.0, "adjust": False}))
+    tcut = {"cls": "DiffuseDroplet", "position": [0.0, 0.0, -0.4], "radius": 3.0, "width": 1.0}
+    out.append(("F22", {"grid": gc, "image": {"kind": "clean", "truth": [tcut], "a": 1.0, "b": 0.0, "sigma": 0.0, "nseed": 1},
+                        "candidate": {"cls": "DiffuseDroplet", "position": [0.0, 0.0, 0.3], "radius": 3.2, "width": 1.0},
+                        "vmin": 0.0, "vmax": 1.0, "adjust": False}))
+    for k in range(4):
+        gs = rc.gen_grid(rng, "cylindrical")
+        gs["periodic_z"] = True
+        t = rc.gen_truth(rng, gs, "DiffuseDroplet", 0)
+        c = rc.gen_candidate(rng, gs, t, "DiffuseDroplet", 0, across=False, off_locus=False)
+        L = gs["bounds_z"][1] - gs["bounds_z"][0]
+        c["position"][2] += rng.choice([-1, 1]) * L
+        out.append(("F22", {"grid": gs, "image": rc.gen_image_spec(rng, t, "clean"), "candidate": c,
+                            "vmin": [0.0, None][k % 2], "vmax": 1.0, "adjust": bool(k // 2)}))
+    # F23: empty fit region and an automatic level
+    out.append(("F23", {"grid": g2, "image": clean, "candidate": {"cls": "DiffuseDroplet", "position": [8.0, 8.0], "radius": 0.3, "width": 1.0},
+                        "vmin": None, "vmax": 1.0, "adjust": False}))
+    out.append(("F23", {"grid": g2, "image": clean, "candidate": {"cls": "SphericalDroplet", "position": [40.0, 40.0], "radius": 2.0},
+                        "vmin": 0.0, "vmax": None, "adjust": True}))
+    # F24: axisymmetric class on a Cartesian 3-d grid
+    g3 = {"family": "cartesian", "bounds": [[-4.0, 4.0], [-4.0, 4.0], [0.0, 8.0]], "shape": [8, 8, 8], "periodic": [False] * 3}
+    t3 = {"cls": "DiffuseDroplet", "position": [0.0, 0.0, 4.2], "radius": 2.3, "width": 1.0}
+    for amps in ([0.0, 0.0], [0.05, 0.0, 0.0]):
+        out.append(("F24", {"grid": g3, "image": {"kind": "clean", "truth": [t3], "a": 1.0, "b": 0.0, "sigma": 0.0, "nseed": 1},
+                            "candidate": {"cls": "PerturbedDroplet3DAxisSym", "position": [0.0, 0.0, 4.0], "radius": 2.5, "width": 1.0,
+                                          "amplitudes": amps}, "vmin": 0.0, "vmax": 1.0, "adjust": False}))
+    # F25: image rendered from the candidate, automatic levels that are not fitted
+    c25 = {"cls": "DiffuseDroplet", "position": [8.3, 7.6], "radius": 4.5, "width": 1.5}
+    out.append(("F25", {"grid": g2, "image": {"kind": "clean", "truth": [c25], "a": 1.0, "b": 0.0, "sigma": 0.0, "nseed": 1},
+                        "candidate": copy.deepcopy(c25), "vmin": None, "vmax": None, "adjust": False, "fixed_point": True}))
+    for k in range(3):
+        fp = rc.gen_fixed_point_case(rng, 6 * k)   # Cartesian 1-d family cycle start: resolvable diffuse droplets
+        fp["vmin"], fp["vmax"], fp["adjust"] = (None, None, False) if k else (fp["vmin"], None, False)
+        out.append(("F25", fp))
+    return out
+
+
+def strip(case: dict) -> dict:
+    return json.loads(json.dumps(case))
+
+
+def evaluate(ctx, tag: str, case: dict, state: dict):
+    """run one case: record, oracle-spec, premise, property oracle, Coq literal"""
+    rec = rc.run_refine(case)
+    gs = case["grid"]
+    call = rec["calls"][0] if rec["calls"] else None
+    moved = call is not None and "x" in call and not np.array_equal(call["x"], call["x0"])
+    ctx.case([tag, case], nontrivial=bool(moved or rec["error"]))
+    if ctx is not None and tag == "main":
+        ctx.count("family", rc.family_name(gs))
+        ctx.count("periodic_axes", sum(1 for a in rc.grid_axes(gs) if a[3]))
+        ctx.count("candidate_class", case["candidate"]["cls"])
+        ctx.count("modes", len(case["candidate"].get("amplitudes") or []))
+        ctx.count("image", case["image"]["kind"])
+        ctx.count("options", f"vmin={'given' if case['vmin'] is not None else 'None'},vmax="
+                             f"{'given' if case['vmax'] is not None else 'None'},adjust={case['adjust']}")
+        ctx.count("width", "none" if case["candidate"].get("width") is None else "given")
+        ctx.count("fixed_point_case", bool(case.get("fixed_point")))
+    ctx.count("outcome:" + tag, rec["error"] or "ok")
+    state["fits"] += len(rec["calls"])
+    # oracle spec of least_squares
+    for c in rec["calls"]:
+        for s in rc.lsq_spec_failures(c):
+            state["spec"].append({"what": "oracle-spec:least_squares " + s, "input": strip(case)})
+    fails = rc.c04_oracle(case, rec)
+    # premise: the deviation of the RETURNED (normalised) droplet is the cost the optimiser reported
+    if rec["error"] is None and call is not None and "cost_at_x" in call and "dev1" in rec:
+        if not math.isclose(rec["dev1"], 2 * call["cost_at_x"], rel_tol=1e-9, abs_tol=1e-18):
+            if not any(f["class"] == "cost increased" for f in fails):
+                # on periodic cylinders the wrap changes the rendering (F19 -> known finding F22, failure class "cost increased")
+                ent = rc.match_known("C04", case, rec, "cost increased")
+                if ent is not None:
+                    ctx.count("known_finding_hits", ent["id"] + " (premise)")
+                else:
+                    state["premise"].append({"what": f"premise dev_normalisation_invariant: deviation of the returned droplet {rec['dev1']!r} "
+                                                     f"differs from the optimiser's final cost {2 * call['cost_at_x']!r}", "input": strip(case)})
+    lit = rc.case_lit(case, rec)
+    if lit is not None:
+        state["lits"].append(lit)
+        state["lit_cases"].append((tag, case))
+    else:
+        ctx.count("not_expressible_in_model", rec["error"] or "non-finite")
+    for f in fails:
+        ent = rc.match_known("C04", case, rec, f["class"])
+        if ent is not None:
+            state["known"].setdefault(ent["id"], (ent, f, strip(case)))
+            ctx.count("known_finding_hits", ent["id"])
+        else:
+            state["fails"].append({"what": f["what"], "failure": f["class"], "stream": tag, "input": strip(case)})
+    if tag.startswith("F") and not fails:
+        ctx.count("probe_without_failure", tag)
+    return rec, fails
+
+
+def check(ctx: vlib.Ctx) -> int:
+    import droplets
+    ctx.extra["implementation"] = str(droplets.__file__)
+    rng = random.Random(ctx.seed)
+    ok, fresh = rc.prove_with_fallback(ctx, ["Proofs/C04.vo"], ["Gen_refine", "Gen_refine_R"])
+    state = {"fits": 0, "spec": [], "premise": [], "lits": [], "lit_cases": [], "known": {}, "fails": []}
+    n_main = ctx.scale(420, 4200) if not ctx.broken else ctx.scale(900, 6000)
+    for k in range(n_main):
+        case = rc.gen_case(rng, k) if k % 6 else rc.gen_fixed_point_case(rng, k)
+        rec, fails = evaluate(ctx, "main", case, state)
+        if k in (1, 8, 20):
+            ctx.sample({"case": strip(case), "returned": rec["out"], "error": rec["error"],
+                        "cost_start": rec["calls"][0].get("cost0") if rec["calls"] else None,
+                        "cost_end": rec["calls"][0].get("cost") if rec["calls"] else None})
+    for tag, case in probe_cases(random.Random(ctx.seed + 1)):
+        evaluate(ctx, tag, case, state)
+    ctx.extra["fits"] = state["fits"]
+    # (b) correspondence inside Coq
+    if ok:
+        bad = vlib.run_cases(ctx, "refine", rc.CASE_HEADER, state["lits"], "agree", shard=60)
+        for b in bad[:3]:
+            tag, case = state["lit_cases"][b]
+            ctx.broken.append(f"correspondence refine_droplet: model and implementation differ (stream {tag}) on {json.dumps(strip(case))[:600]}")
+        ctx.extra["correspondence_cases"] = len(state["lits"])
+        ctx.extra["correspondence_disagreements"] = len(bad)
+    for s in state["spec"][:3]:
+        ctx.broken.append(s["what"][:300])
+    for s in state["premise"][:3]:
+        ctx.broken.append(s["what"][:300])
+    # (c) violations: at most two inputs per failure class; oracle-spec / premise failures carry their input
+    seen: dict = {}
+    for f in state["fails"]:
+        seen[f["failure"]] = seen.get(f["failure"], 0) + 1
+        if seen[f["failure"]] <= 2 and len(ctx.violations) < 10:
+            ctx.violations.append({**f, "found": True, "broken": ctx.broken[:3]})
+    for s in (state["spec"][:1] + state["premise"][:1]):
+        if len(ctx.violations) < 10:
+            ctx.violations.append({"what": s["what"], "input": s["input"], "found": True, "broken": ctx.broken[:3]})
+    ctx.extra["oracle_failures_total"] = len(state["fails"])
+    ctx.extra["failure_classes"] = seen
+    for fid in sorted(state["known"]):
+        ent, f, case = state["known"][fid]
+        ctx.known_printed.append(f"{fid}: {ent['what'][:160]} -- e.g. {f['what'][:160]} on input {json.dumps(case)[:700]}")
+    return vlib.finish(ctx, "", TRUSTED, ASSUME, RULE)
+
+
+def replay(path: str) -> int:
+    obj = json.load(open(path))
+    print(json.dumps(obj, indent=1)[:3000])
+    case = obj.get("input")
+    if isinstance(case, dict) and "candidate" in case:
+        rec = rc.run_refine(case)
+        fails = rc.c04_oracle(case, rec)
+        spec = [s for c in rec["calls"] for s in rc.lsq_spec_failures(c)]
+        print("returned:", rec["out"], " error:", rec.get("error_message"))
+        for f in fails:
+            ent = rc.match_known("C04", case, rec, f["class"])
+            print("  property failure:", f["class"], "--", f["what"][:300], "(known finding " + ent["id"] + ")" if ent else "")
+        for s in spec:
+            print("  oracle-spec failure:", s[:300])
+        bad = [f for f in fails if rc.match_known("C04", case, rec, f["class"]) is None]
+        print("property oracle on the current tree:", "fails" if (bad or spec) else "holds")
+        return 1 if (bad or spec) else 0
+    print("no stored input (an obligation or the correspondence stopped checking); see `no_longer_checks`")
     return 0
